@@ -278,7 +278,7 @@ pub fn check_history(kind: usize, h: &[Ev], e: &mut Eng) -> u64 {
     applied
 }
 
-const SYMS: [Ev; 5] = [Ev::P(0), Ev::P(1), Ev::N, Ev::Er(1), Ev::Er(2)];
+pub const SYMS: [Ev; 5] = [Ev::P(0), Ev::P(1), Ev::N, Ev::Er(1), Ev::Er(2)];
 
 // ---------------------------------------------------------------- freeze
 #[derive(Clone, Copy, Debug, PartialEq, Eq)]
